@@ -18,7 +18,7 @@ ASSUMPTIONS = ["BCn decoding per the Direct3D block-compression specification; f
 def plan(tier):
     if tier == "quick":
         return [("debug", 16, dict(n=60, big=1, vol=1)), ("release", 4, dict(n=40, big=1, vol=1)), ("asan", 2, dict(n=20, big=1, vol=1))]
-    return [("debug", 16, dict(n=2000, big=20, vol=4)), ("release", 8, dict(n=1000, big=8, vol=4)), ("asan", 4, dict(n=200, big=2, vol=2)), ("memcheck", 4, dict(n=20, big=0, vol=0))]
+    return [("debug", 16, dict(n=2000, big=20, vol=4)), ("release", 8, dict(n=1000, big=8, vol=4)), ("asan", 4, dict(n=200, big=2, vol=2)), ("memcheck", 4, dict(n=20, big=0, vol=1))]
 
 
 def adversarial_block(rng, fmt):
